@@ -236,7 +236,7 @@ def run(ctx):
         for doc in ctx.sample([d for d in res.printed if "fn" in d], 25000):
             if "fn" in doc:
                 n += 1
-                if ctx.quick and n % (6 if name in ("cond3", "delta") else 3):
+                if ctx.quick and n % {"cond": 4, "cond3": 12, "cross": 4, "delta": 8}.get(name, 3):
                     continue
                 replay_doc(ctx, doc, n)
                 ctx.traces += 1
